@@ -169,6 +169,10 @@ class AbstractWav(ABC):
         startTime, endTime = utils.getInterval(start, step, self.duration, reverse)
         samples = self.getSamples(startTime, endTime)
 
+        # The samples start at the sample position nearest to startTime; measure
+        # from there so that the result falls on a sample position as well
+        startTime = round(startTime * self.frameRate) / self.frameRate
+
         return _findNextZeroCrossing(startTime, samples, self.frameRate, reverse)
 
     @property
